@@ -1,2 +1,1 @@
-pub mod codec;
 pub mod scheme;
